@@ -16,7 +16,12 @@ for f in k['findings']:
     if subj:
         hit = [h for h, s in log if s == subj]
         if hit and hit[0] != f.get('commit'):
-            f['what'] = f['what'].replace(f.get('commit', '~'), hit[0])
+            import re
+            old_hash = f.get('commit')
+            if old_hash:
+                f['what'] = f['what'].replace(old_hash, hit[0])
+            else:       # never replace an empty string: insert the hash after 'property=Cxx'
+                f['what'] = re.sub(r'^(fixed: property=C\d\d) +', lambda m: f'{m.group(1)} {hit[0]} ', f['what'])
             f['commit'] = hit[0]
         if not hit:
             print('NOT FOUND:', f['id'], subj)
